@@ -862,6 +862,15 @@ def check_query(ctx, b, sh, assign, en, call, B):
         ok, tg = call("get_tags", lambda: b.get_tags(f.name))
         check(ok and set(tg) == f.tags, "tags-differ",
               "field %r: tags %r, expected %r" % (f.name, tg, f.tags))
+        if ok and isinstance(tg, set):
+            # the set handed back is the caller's: editing it changes no
+            # later answer
+            tg.add("scribbled-by-the-caller")
+            ok, tg2 = call("get_tags", lambda: b.get_tags(f.name))
+            check(ok and set(tg2) == f.tags, "tags-differ",
+                  "field %r: tags %r after the caller edited the set "
+                  "returned by an earlier get_tags(), expected %r" %
+                  (f.name, tg2, f.tags))
     check(mask == want_mask, "mask-not-union",
           "mask %#x, union of present fields %#x" % (mask, want_mask),
           assign=assign)
